@@ -582,6 +582,8 @@ where
         output.on_conn_error(error);
         input.on_conn_error(error);
         listener.on_conn_error(error);
+        // opens blocked on the peer's stream limit must end as well
+        self.stream_ids.local.wake_all();
     }
 }
 
